@@ -370,7 +370,8 @@ Definition fs_rename (s : fstate) (po pn : str) : res unit * fstate :=
      over a missing old entry *)
   match resolve (st_fs s) po false with
   | WMissing _ _ _ =>
-      match resolve (st_fs s) pn false with
+      (* only the new name's parent directory is resolved at that point *)
+      match resolve (st_fs s) (match strip_trailing_seps pn with [] => pn | q => q end) false with
       | WErr e => (Err e, s)
       | _ => (Err ENOENT, s)
       end
@@ -452,11 +453,15 @@ Definition fs_symlink (s : fstate) (target p : str) : res unit * fstate :=
   match target with
   | [] => (Err ENOENT, s)
   | _ =>
-      match resolve (st_fs s) p false with
+      (* symlink(t, "name/"): the last component is looked up without its trailing
+         separators and without following it: EEXIST if anything is there, ENOENT
+         if not (a trailing separator asks for a directory) *)
+      let q := match strip_trailing_seps p with [] => p | q => q end in
+      match resolve (st_fs s) q false with
       | WFound _ _ => (Err EEXIST, s)
-      | WMissing parent name false =>
-          (Ok tt, add_entry s parent name (fun t g => Link (mkMeta 511 0 g t) target))
-      | WMissing _ _ true => (Err ENOENT, s)
+      | WMissing parent name sl =>
+          if sl || negb (str_eqb q p) then (Err ENOENT, s)
+          else (Ok tt, add_entry s parent name (fun t g => Link (mkMeta 511 0 g t) target))
       | WErr e => (Err e, s)
       end
   end.
@@ -482,7 +487,7 @@ Definition fs_open (s : fstate) (p : str) (fl perm : N) : res handle * fstate :=
   let p' := strip_trailing_seps p in
   (* O_CREAT with a trailing separator: EISDIR once the parents resolve *)
   if o_creat fl && negb (str_eqb p' p) && negb (str_eqb p' []) then
-    match resolve (st_fs s) p' true with
+    match resolve (st_fs s) p' false with   (* the parents only; the last component is not followed *)
     | WErr e => (Err e, s)
     | _ => (Err EISDIR, s)
     end
